@@ -73,7 +73,7 @@ ParsesTo(toks, t) == LET r == RefParse(toks) IN r.ok /\ r.node = Norm(t)
 
 (* printing with only the required parentheses, or with all of them, and    *)
 (* parsing by the reference grammar is the identity on trees                *)
-RoundTrip == SComplete => ParsesTo(Min(STree), STree) /\ ParsesTo(Full(STree), STree) /\ ParsesTo(Sticky(STree), STree)
+RoundTrip == SComplete => ParsesTo(Min(STree), STree) /\ ParsesTo(Full(STree), STree) /\ ParsesTo(Sticky(STree), STree) /\ ParsesTo(Elvis(STree), STree)
 
 (* every pair of parentheses the minimal printer writes is required: the    *)
 (* sequence without it is not a sentence for the same tree                  *)
@@ -98,7 +98,7 @@ ParensRequired == (SComplete /\ ~UnaryBase(STree)) =>
 
 TreeCase == [kind |-> "tree", tree |-> Norm(STree), n |-> n,
              texts |-> <<TextMin(Min(STree)), TextSpaced(Min(STree)), TextWild(Min(STree)),
-                         TextMin(Full(STree)), TextWild(Full(STree)), TextSpaced(Sticky(STree)), TextWild2(Min(STree))>>]
+                         TextMin(Full(STree)), TextWild(Full(STree)), TextSpaced(Sticky(STree)), TextWild2(Min(STree)), TextSpaced(Elvis(STree))>>]
 EmitTrees == (SComplete /\ SEmitMode = "trees") => PrintT(ToJson(TreeCase))
 
 ---------------------------------------------------------------------------
